@@ -15,7 +15,7 @@ def StartPrev (st : PState) : Prop :=
   st.previousSecondDef = .none ∨ st.previousSecondDef = .startGrouping ∨ st.previousSecondDef = .startSideEffect ∨
     st.previousSecondDef = .whitespace ∨ st.previousSecondDef = .annotation ∨ st.previousSecondDef = .subexpression
 
-def ExprOK (inG : Bool) (toks : List PToken) (ls : Bool) : Prop :=
+def ExprOK (c : Nat) (inG : Bool) (toks : List PToken) (ls : Bool) : Prop :=
   ∀ (st0 : PState) (ug p : Option Nat) (base : Nat), OpenB st0 ug → FrameStart st0 ug p base → AllPrio st0.nodes →
     CGOK st0 → KindOK st0 ug inG → StartPrev st0 → ∀ (pos : Nat), NumberedFrom pos toks → ∀ (rest : List PToken),
     ∃ (st1 : PState) (E : Tree) (re cb : Nat),
@@ -24,6 +24,7 @@ def ExprOK (inG : Bool) (toks : List PToken) (ls : Bool) : Prop :=
       (∀ j, j + 1 < base → st1.nodes[j]? = st0.nodes[j]?) ∧
       (∀ j, j < base → (st1.nodes[j]?).map (setRight none) = (st0.nodes[j]?).map (setRight none)) ∧
       (ls = false → Ready st1) ∧
+      E.inorder.length + base + c = st1.nodes.size ∧
       ∀ (f : Frame) (stack : List Frame) (restR : List PToken), f.cur = .nil → f.last = .start → f.inGroup = inG →
         refLoop Table.gen f stack pos (toks ++ restR) =
           refLoop Table.gen { f with cur := toRG (dfOf st1.nodes) E, last := if ls then .suffix else .operand, ws := false,
@@ -52,30 +53,31 @@ theorem FrameStart.above_ne {st0 : PState} {ug p : Option Nat} {base : Nat} (h :
     rw [e] at hgl; cases hgl
 
 /-- the first operand of a frame is an expression -/
-theorem expr_first {inG : Bool} {x : List PToken} (hx : OpdOK x) : ExprOK inG x false := by
+theorem expr_first {c : Nat} {inG : Bool} {x : List PToken} (hx : OpdOK c x) : ExprOK c inG x false := by
   intro st0 ug p base hO hfs hprios hcg _ _ pos hnum rest
-  obtain ⟨st2, sub, cb, P, hloop, hres, hP, href⟩ := hx st0 ug hO hprios hcg pos hnum rest
+  obtain ⟨st2, sub, cb, P, hloop, hres, hP, hcnt, href⟩ := hx st0 ug hO hprios hcg pos hnum rest
   obtain ⟨hb, _⟩ := hfs.base_eq
   refine ⟨st2, sub, base, cb, hloop, uinv_first hfs hO.hug hres, hres.gs, hres.cg,
-    fun j hj => hres.below j (by omega), fun j hj => by rw [hres.below j (by omega)], fun _ => hres.ready, ?_⟩
+    fun j hj => hres.below j (by omega), fun j hj => by rw [hres.below j (by omega)], fun _ => hres.ready, by rw [hb]; exact hcnt, ?_⟩
   intro f stack restR hc hl _
   rw [href f stack restR (Or.inr (Or.inl hl)), hc, hP.nil hfs.above_ne]
   rfl
 
 /-- an expression followed by a suffix operator -/
-theorem expr_suf {inG : Bool} {e : List PToken} {ls : Bool} (he : ExprOK inG e ls) (s : PToken) (hs : isSuffixTok s = true) :
-    ExprOK inG (e ++ [s]) true := by
+theorem expr_suf {c : Nat} {inG : Bool} {e : List PToken} {ls : Bool} (he : ExprOK c inG e ls) (s : PToken)
+    (hs : isSuffixTok s = true) : ExprOK c inG (e ++ [s]) true := by
   intro st0 ug p base hO hfs hprios hcg hk hsp pos hnum rest
   have hnume := numbered_prefix e [s] pos hnum
   have hscol : s.col = pos + e.length := (numbered_append e [s] pos hnum).1
-  obtain ⟨stE, E, re, cb, hloopE, hinvE, hgsE, hcgE, ho1E, ho2E, hrdE, hrefE⟩ :=
+  obtain ⟨stE, E, re, cb, hloopE, hinvE, hgsE, hcgE, ho1E, ho2E, hrdE, hcntE, hrefE⟩ :=
     he st0 ug p base hO hfs hprios hcg hk hsp pos hnume ([s] ++ rest)
   obtain ⟨q, st1, re', hq, h1, hinv1, hs1, hgs1, hcg1, hdefs1, ho11, ho21, hdn⟩ :=
     suffix_effectU hinvE s rest.isEmpty hs
   have hsd : (getDefinition s.type).2 = .unarySuffix := by unfold isSuffixTok at hs; simpa using hs
   obtain ⟨_, _, _, hnb⟩ := suffix_prio20 s.type hsd
   refine ⟨st1, _, re', st1.nodes.size, ?_, hinv1, by rw [hgs1, hgsE], by rw [hcg1, hcgE],
-    fun j hj => by rw [ho21 j hj, ho1E j hj], fun j hj => by rw [ho11 j hj, ho2E j hj], (fun h => Bool.noConfusion h), ?_⟩
+    fun j hj => by rw [ho21 j hj, ho1E j hj], fun j hj => by rw [ho11 j hj, ho2E j hj], (fun h => Bool.noConfusion h),
+    by rw [insertC_inorder]; simp only [List.length_append, List.length_cons, Tree.inorder, List.length_nil]; omega, ?_⟩
   · rw [List.append_assoc, hloopE]
     simp only [List.cons_append, List.nil_append, loop, h1, Outcome.bind]
   · intro f stack restR hc hl hig
@@ -107,10 +109,11 @@ theorem OpdRes.transfer {s s' s2 : PState} {sub : Tree} {cb : Nat} (h : OpdRes s
     by rw [h3]; exact h.gs, by rw [h4]; exact h.cg, h.bot, h.spine, h.prios, h.prev, h.ready⟩
 
 /-- an expression followed by a binary operator and its right operand -/
-theorem expr_bin {inG : Bool} {e x ws1 ws2 : List PToken} {ls : Bool} {o : PToken} (he : ExprOK inG e ls) (hx : OpdOK x)
+theorem expr_bin {c1 c2 : Nat} {inG : Bool} {e x ws1 ws2 : List PToken} {ls : Bool} {o : PToken} (he : ExprOK c1 inG e ls)
+    (hx : OpdOK c2 x)
     (ho : isBin3Tok o = true) (hw1 : ∀ w ∈ ws1, isTriviaTok w = true) (hw2 : ∀ w ∈ ws2, isTriviaTok w = true)
     (hxne : x ≠ []) :
-    ExprOK inG (e ++ (ws1 ++ (o :: (ws2 ++ x)))) false := by
+    ExprOK (c1 + c2) inG (e ++ (ws1 ++ (o :: (ws2 ++ x)))) false := by
   intro st0 ug p base hO hfs hprios hcg hk hsp pos hnum rest
   -- positions
   have hnume := numbered_prefix e _ pos hnum
@@ -119,7 +122,7 @@ theorem expr_bin {inG : Bool} {e x ws1 ws2 : List PToken} {ls : Bool} {o : PToke
   have hocol : o.col = pos + e.length + ws1.length := hnum2.1
   have hnum3 := numbered_append ws2 x _ hnum2.2
   -- the expression so far
-  obtain ⟨stE, E, re, cb, hloopE, hinvE, hgsE, hcgE, ho1E, ho2E, hrdE, hrefE⟩ :=
+  obtain ⟨stE, E, re, cb, hloopE, hinvE, hgsE, hcgE, ho1E, ho2E, hrdE, hcntE, hrefE⟩ :=
     he st0 ug p base hO hfs hprios hcg hk hsp pos hnume (ws1 ++ (o :: (ws2 ++ x)) ++ rest)
   -- trivia, operator
   obtain ⟨stE', hloopW1, hinvE', hnE', hgsE', hcgE'⟩ := trivia_runU ws1 stE ((o :: (ws2 ++ x)) ++ rest) hinvE hw1
@@ -130,7 +133,7 @@ theorem expr_bin {inG : Bool} {e x ws1 ws2 : List PToken} {ls : Bool} {o : PToke
   have hcg1ok : CGOK st1' := by
     unfold CGOK at hcg ⊢
     rw [hcg1', hgs1', hcg1, hgs1, hcgE', hgsE', hcgE, hgsE]; exact hcg
-  obtain ⟨st2, sub, cb', P, hloopX, hres, hP, hrefX⟩ :=
+  obtain ⟨st2, sub, cb', P, hloopX, hres, hP, hcntX, hrefX⟩ :=
     hx st1' ug hO1' (by rw [hn1']; exact hprios1) hcg1ok _ hnum3 rest
   have hres1 : OpdRes st1 st2 sub cb' := hres.transfer hn1'.symm hnp1'.symm hgs1'.symm hcg1'.symm
   obtain ⟨re', hinv2, hdefs2, ho12, ho22, hdn⟩ := hK st2 sub cb' hres1
@@ -138,7 +141,15 @@ theorem expr_bin {inG : Bool} {e x ws1 ws2 : List PToken} {ls : Bool} {o : PToke
   have hbo := bin3_prio20 o.type (by unfold isBin3Tok at ho; exact ho)
   obtain ⟨_, _, _, hnb⟩ := hbo
   refine ⟨st2, _, re', cb', ?_, hinv2, ?_, ?_, fun j hj => by rw [ho22 j hj, ho1E j hj],
-    fun j hj => by rw [ho12 j hj, ho2E j hj], fun _ => hres.ready, ?_⟩
+    fun j hj => by rw [ho12 j hj, ho2E j hj], fun _ => hres.ready, ?_, ?_⟩
+  rotate_left 3
+  · -- the node count
+    rw [insertC_inorder]
+    simp only [List.length_append, List.length_cons]
+    rw [hn1'] at hcntX
+    rw [hnE'] at hs1
+    omega
+  rotate_right 3
   · -- the loop
     have e1 : e ++ (ws1 ++ (o :: (ws2 ++ x))) ++ rest = e ++ (ws1 ++ (o :: (ws2 ++ x)) ++ rest) := by simp
     have e2 : ws1 ++ (o :: (ws2 ++ x)) ++ rest = ws1 ++ ((o :: (ws2 ++ x)) ++ rest) := by simp
